@@ -15,7 +15,7 @@ Definition op_ok (a : anode) (o : op) : Prop :=
   match o with
   | OAdd name size cid | OUpdate name size cid => link_in_ok (mkLink name size cid)
   | OSetLinks ls => Forall link_in_ok ls
-  | ORedecode | RDecode => len (a_raw a) < two64
+  | ORedecode | OReblock | RDecode => len (a_raw a) < two64
   | _ => True
   end.
 
@@ -30,7 +30,7 @@ Fixpoint hist_ok (a : anode) (ops : list op) : Prop :=
 
 Lemma astep_state : forall H a o, fst (astep H a o) = anext a o.
 Proof.
-  intros H a o. unfold anext. destruct o as [n s c| n | d | [b|] | | ls | | n s c | | | | | | | ]; cbn [astep];
+  intros H a o. unfold anext. destruct o as [n s c| n | d | [b|] | | ls | | n s c | | | | | | | | ]; cbn [astep];
     reflexivity.
 Qed.
 
@@ -155,7 +155,7 @@ Lemma step_refines : forall n a o, R n a -> links_ok a -> op_ok a o ->
   links_ok (fst (astep H a o)).
 Proof.
   intros n a o HR L Hop. pose proof HR as HR0.
-  destruct o as [nm sz c| nm | d | [b|] | | ls | | nm sz c | | | | | | | ].
+  destruct o as [nm sz c| nm | d | [b|] | | ls | | nm sz c | | | | | | | | ].
   - (* OAdd *)
     cbn [step astep]. unfold add_link. cbv zeta. destruct (link_ok (mkLink nm sz c)) eqn:Ok; cbn [fst snd].
     + destruct HR as (G & Dd & Bb & S & E & C).
@@ -249,6 +249,19 @@ Proof.
     + intro k. rewrite group_sort. reflexivity.
     + intros _. apply sort_sorted.
     + injection H0 as <-. reflexivity.
+  - (* OReblock *)
+    cbn [step astep]. cbn [op_ok] in Hop.
+    destruct (do_encode_spec n a HR) as (HR' & En & Cn & Ln).
+    rewrite En, Cn. cbn [odefault].
+    unfold a_raw. rewrite decode_encode by (apply a_wf; assumption).
+    cbn [fst snd]. split; [reflexivity|]. split; [|exact L].
+    destruct HR' as (G' & Dd' & Bb' & _).
+    unfold R. cbn [fst snd n_links n_dirty n_data n_enc n_cached n_builder a_links a_data a_builder].
+    split; [intro k; rewrite group_sort; reflexivity|]. split; [reflexivity|]. split; [exact Bb'|].
+    split; [intros _; apply sort_sorted|].
+    split.
+    + intros e He. injection He as <-. split; reflexivity.
+    + intros e c He Hc. injection He as <-. injection Hc as <-. rewrite Bb'. reflexivity.
   - (* RCid *)
     cbn [step astep fst snd].
     destruct (do_encode_spec n a HR) as (HR' & En & Cn & Ln).
